@@ -18,6 +18,11 @@ from typing import Any
 
 from vf.common import Ctx
 from vf.common import pmap
+# imported here (not in the workers) so that the forked pool inherits the
+# loaded library instead of importing it once per process
+from vf.c08_batch import JudgeBatch
+from vf.loopback import run_workflow
+from bqskit.ir.circuit import Circuit
 
 AWARE = ['quick', 'single', 'quick+extend']        # know barrier-like ops
 OTHERS = ['scan', 'greedy', 'cluster', 'gtqcp', 'tdag']
@@ -145,9 +150,6 @@ def deviations(base: list, alpha: list, k: int) -> list:
 # ----------------------------------------------------------------- worker
 def _work(item: tuple) -> dict:
     """item = (family, n, rank0, [ops...], [stages...], seed)."""
-    from vf.c08_batch import JudgeBatch
-    from vf.loopback import run_workflow
-    from bqskit.ir.circuit import Circuit
     family, n, rank0, opss, stagess, seed = item
     cases = [(n, ops, st) for ops in opss for st in stagess]
     _, data = run_workflow(Circuit(1), [JudgeBatch(cases, seed)])
@@ -388,9 +390,6 @@ def run(ctx: Ctx) -> None:
 
 
 def _run_one(rep: dict) -> tuple:
-    from vf.c08_batch import JudgeBatch
-    from vf.loopback import run_workflow
-    from bqskit.ir.circuit import Circuit
     case = (rep['n'], rep['ops'], rep['stages'])
     _, data = run_workflow(
         Circuit(1), [JudgeBatch([case], int(rep.get('seed', 0)))],
